@@ -151,6 +151,11 @@ def _check(inp):
     except Unterminated:
         return None
     wrap = wrap_python if lang == "python" else wrap_fortran
+    if inp.get("via") == "emitter":
+        # through the Python generator's own call site (CodeGenerator._emit): its width and indentation (80, four blanks)
+        if lang != "python" or width != 80 or indentation != "    ":
+            return None
+        wrap = _emit_via_python_generator
     try:
         out = wrap(line, level=level, width=width, indentation=indentation)
     except Exception as ex:
@@ -330,6 +335,28 @@ FINGERPRINTS = {
 }
 
 # }}}
+
+
+class _RecordingEmitter:
+    def __init__(self, level):
+        self.level = level
+        self.lines = []
+
+    def __call__(self, text):
+        self.lines.append(text)
+
+
+def _emit_via_python_generator(line, level, width, indentation):
+    """the lines the real dagrt.codegen.python.CodeGenerator._emit hands to its emitter for `line` at nesting depth `level`
+    (class level + function level)"""
+    from dagrt.codegen.python import CodeGenerator
+    cg = CodeGenerator.__new__(CodeGenerator)
+    cg._class_emitter = _RecordingEmitter(level // 2)
+    cg._emitter = _RecordingEmitter(level - level // 2)
+    cg._emit(line)
+    if cg._class_emitter.lines:
+        raise AssertionError("_emit wrote to the class emitter")
+    return list(cg._emitter.lines)
 
 
 # {{{ input generation
@@ -622,6 +649,18 @@ def bounded(payload):
                     run({"lang": lang, "line": line, "level": level, "width": width, "indentation": "    "})
                     n_tab += 1
     parts["tab_in_string_inputs"] = n_tab
+
+    # ---- through the Python generator's own call site ----
+    n_em = 0
+    em_lines = ["raise self.TimeStepUnderflow('dt underflow.  Giving up.')",
+                "raise self.StepError('time step underflow in adaptive stepper:  dt fell below dt_min.   Giving up after 10 rejected steps.')",
+                "x = f(aaaa, bbbb, cccc, dddd, eeee, ffff, gggg, hhhh, iiii, jjjj, kkkk, llll, mmmm, nnnn)",
+                "msg = 'a\tb' + other", "y = 'two  blanks' + \"three   blanks\""]
+    for line in em_lines + [l_.strip() for l_ in sorted(set(rl["python"]))]:
+        for level in (0, 2, 3, 6):
+            run({"lang": "python", "line": line, "level": level, "width": 80, "indentation": "    ", "via": "emitter"})
+            n_em += 1
+    parts["through_the_python_emitter_call_site"] = n_em
 
     # ---- seeded random statements from small grammars ----
     for i in range(n_random):
